@@ -43,13 +43,14 @@ pub fn mutex_jobs(thorough: bool, finish: bool) -> Vec<Job> {
     let mut v = vec![];
     for fl in ["mutex.local", "mutex.std"] {
         for fair in [1, 0] {
-            v.push(job(Cfg::new(fl, &[("fair", fair), ("k", if thorough { 4 } else { 3 })]), finish, thorough));
+            v.push(job(Cfg::new(fl, &[("fair", fair), ("k", if thorough { 5 } else { 4 })]), finish, thorough));
         }
     }
     if thorough {
-        v.push(job(Cfg::new("mutex.local", &[("fair", 1), ("k", 5)]), finish, true));
-        v.push(job(Cfg::new("mutex.local", &[("fair", 0), ("k", 5)]), finish, true));
+        v.push(job(Cfg::new("mutex.local", &[("fair", 1), ("k", 7)]), finish, true));
+        v.push(job(Cfg::new("mutex.local", &[("fair", 0), ("k", 6)]), finish, true));
         v.push(job(Cfg::new("mutex.local", &[("fair", 0), ("k", 3), ("symmetry", 0)]), finish, true));
+        v.push(job(Cfg::new("mutex.local", &[("fair", 1), ("k", 3), ("symmetry", 0)]), finish, true));
     }
     v
 }
@@ -58,11 +59,11 @@ pub fn event_jobs(thorough: bool) -> Vec<Job> {
     let mut v = vec![];
     for fl in ["event.local", "event.std"] {
         for set in [0, 1] {
-            v.push(job(Cfg::new(fl, &[("set", set), ("k", if thorough { 4 } else { 3 })]), false, thorough));
+            v.push(job(Cfg::new(fl, &[("set", set), ("k", if thorough { 5 } else { 4 })]), false, thorough));
         }
     }
     if thorough {
-        v.push(job(Cfg::new("event.local", &[("set", 0), ("k", 5)]), false, true));
+        v.push(job(Cfg::new("event.local", &[("set", 0), ("k", 8)]), false, true));
         v.push(job(Cfg::new("event.local", &[("set", 0), ("k", 3), ("symmetry", 0)]), false, true));
     }
     v
@@ -71,7 +72,7 @@ pub fn event_jobs(thorough: bool) -> Vec<Job> {
 pub fn oneshot_jobs(thorough: bool) -> Vec<Job> {
     let mut v = vec![];
     for fl in ["oneshot.local", "oneshot.std", "oneshot.shared", "bcast.local", "bcast.std", "bcast.shared"] {
-        v.push(job(Cfg::new(fl, &[("k", if thorough { 4 } else { 3 }), ("sends", 2), ("handles", 3)]), false, thorough));
+        v.push(job(Cfg::new(fl, &[("k", if thorough { 5 } else { 4 }), ("sends", 2), ("handles", 3)]), false, thorough));
     }
     v
 }
